@@ -1052,6 +1052,46 @@ done:
     R.subspaces.push_back(sub);
 }
 
+// C06, two searches back to back as a fast GUI drives them: `go` number two is handled the moment the
+// first bestmove line is out (the first search thread still has its last statements to run), then `stop`
+static void list_overlap()
+{
+    mc::Subspace sub;
+    sub.name = "second go while the first search thread is finishing";
+    sub.bound = "3 positions x first go depth 1..3 x second go {infinite, depth 30} x {stop, isready+stop}: the second go must be answered by exactly one bestmove after `stop`";
+    const char* fens[] = {"8/8/8/3k4/8/3K4/3P4/8 w - - 0 1", "r3k2r/8/8/8/8/8/8/R3K2R w KQkq - 0 1", "rnbqkbnr/pppppppp/8/8/8/8/PPPPPPPP/RNBQKBNR w KQkq - 0 1"};
+    for (const char* fen : fens)
+        for (int d1 = 1; d1 <= 3; ++d1)
+            for (const char* second : {"go infinite", "go depth 30"})
+                for (int withready = 0; withready < 2; ++withready)
+                {
+                    if (!mine()) continue;
+                    sess::Spec sp;
+                    sp.lines = {std::string("position fen ") + fen, "go depth " + std::to_string(d1), second};
+                    if (withready) sp.lines.push_back("isready");
+                    sp.lines.push_back("stop");
+                    sp.overlap = true;
+                    sp.horizon = 400000;
+                    sess::Outcome o = g_inproc ? sess::run_inproc(*g_uci, sp) : sess::run(*g_uci, sp);
+                    sess::Parsed all = sess::parse_output(o.output, false);
+                    R.count("sessions");
+                    sub.states++;
+                    std::vector<std::string> ls(sp.lines.begin(), sp.lines.end());
+                    auto w = [&]() { return mc::JObj().raw("script", mc::jlist(ls, true)).n("bestmove_lines", (long long)all.bestmoves.size()).n("readyok_lines", all.readyok).b("horizon_hit", o.horizon_hit); };
+                    if (o.crashed)
+                        R.violation("C06:overlap:crash", w().s("stderr", o.stderr_tail));
+                    else if (o.horizon_hit || all.bestmoves.size() != 2)
+                        R.violation("C06:overlap:stop_lost_for_second_go", w());
+                    else if (withready && all.readyok != 1)
+                        R.violation("C06:overlap:readyok_count", w());
+                    R.outcome(std::to_string(all.bestmoves.size()) + (o.horizon_hit ? "h" : ""));
+                    if (sub.states == 2) R.sample(w().str());
+                }
+    sub.exhaustive = true;
+    sub.transitions = sub.states * 5;
+    R.subspaces.push_back(sub);
+}
+
 // C20 at the search seam: virtual thinking time of `go wtime T btime T ...` must stay within 70 % of T
 static void list_clockseam()
 {
@@ -1199,6 +1239,7 @@ int main(int argc, char** argv)
     else if (list == "depths") list_depths();
     else if (list == "tactics") list_tactics();
     else if (list == "clockseam") list_clockseam();
+    else if (list == "overlap") list_overlap();
     else if (list == "ucipath") list_ucipath();
     else if (list == "ucikeep") list_ucikeep();
     else return 2;
